@@ -35,69 +35,82 @@ Definition getConfig (v : val) : option config :=
   | _ => None
   end.
 
-(* oracle data of one do_segmetrics call:
-   [q2a; kde index per segment (or None); [(k, index matrix)]; noise matrix per segment (or None)] *)
-Record odata := mkOdata {
-  od_q2a : Q; od_kde : list (option nat);
-  od_idx : list (nat * list (list nat)); od_noise : list (option (list (list Q))) }.
-
-Definition getOdata (v : val) : option odata :=
+(* oracle data of one do_segmetrics call: [q2a; per segment [kde index or None; biweight
+   location of the deviations or None; index matrix; noise matrix]] (empty matrices where the code did not draw any) *)
+Definition getSegOracle (q2a : Q) (v : val) : option oracles :=
   match v with
-  | VL [q; kd; ix; nz] =>
-      match getQ q, getList (getOpt getNat) kd,
-            getList (getPair getNat (getList (getList getNat))) ix,
-            getList (getOpt (getList (getList getQ))) nz with
-      | Some q, Some kd, Some ix, Some nz => Some (mkOdata q kd ix nz)
+  | VL [kd; bl; ix; nz] =>
+      match getOpt getNat kd, getOpt getQ bl, getList (getList getNat) ix, getList (getList getQ) nz with
+      | Some kd, Some bl, Some ix, Some nz =>
+          (* the Student-t tail is left symbolic: the entry returns t^2, the harness applies
+             scipy's tail to it *)
+          Some (mkOracles (match kd with Some k => k | None => O end)
+                          (match bl with Some b => b | None => 0 end) (fun t2 _ => t2) q2a ix nz)
       | _, _, _, _ => None
       end
   | _ => None
   end.
 
-Fixpoint lookup_k (k : nat) (tab : list (nat * list (list nat))) : list (list nat) :=
-  match tab with
-  | [] => []
-  | (j, m) :: t => if Nat.eqb j k then m else lookup_k k t
+Definition getOdata (v : val) : option (list oracles) :=
+  match v with
+  | VL [q; per] =>
+      match getQ q with
+      | Some q => getList (getSegOracle q) per
+      | None => None
+      end
+  | _ => None
   end.
 
-(* the oracles seen by segment number i: the Student-t tail is left symbolic (the entry
-   returns t^2; the harness applies scipy's tail to it) *)
-Definition oracles_at (od : odata) (i : nat) : oracles :=
-  mkOracles
-    (fun _ => match nth i (od_kde od) None with Some k => k | None => O end)
-    (fun t2 _ => t2)
-    (fun _ => od_q2a od)
-    (fun k _ => lookup_k k (od_idx od))
-    (fun _ _ => match nth i (od_noise od) None with Some m => m | None => [] end).
+Definition dummy_oracles : oracles := mkOracles O 0 (fun t2 _ => t2) 0 [] [].
 
 Definition vRow (r : list (string * option Q)) : val :=
   VL (map (fun p => VL [VS (fst p); vOptQ (snd p)]) r).
 
-(* shape of the supplied bootstrap matrix against the model's own k and bootstrap count *)
+(* shape of the supplied bootstrap matrix against the model's own k and bootstrap count,
+   and the oracle contract "indices in [0, k)" *)
 Definition ci_shape_ok (O : oracles) (cfg : config) (k : nat) : bool :=
   if negb (has "ci" (c_ivl cfg)) || (Z.of_nat k <? Gen.SegmetricsDefaults.ci_min_k) then true
   else
-    let nb := n_boot (c_boot cfg) (o_q2a O (c_alpha cfg)) in
-    let m := o_idx O k nb in
-    (Z.of_nat (length m) =? nb) && forallb (fun r => Nat.eqb (length r) k) m &&
+    let nb := n_boot (c_boot cfg) (o_q2a O) in
+    let m := o_idx O in
+    (Z.of_nat (length m) =? nb) &&
+    forallb (fun r => Nat.eqb (length r) k && forallb (fun i => Nat.ltb i k) r) m &&
     (if c_smoothed cfg
-     then let nz := o_noise O [] nb in
+     then let nz := o_noise O in
           (Z.of_nat (length nz) =? nb) && forallb (fun r => Nat.eqb (length r) k) nz
      else true).
 
+(* per segment: [number of bins; their index labels; the statistics row] *)
 Definition e_c17_segmetrics (v : val) : val :=
   match v with
   | VL [b; s; c; o] =>
       match getList getBin b, getList getSeg s, getConfig c, getOdata o with
-      | Some bins, Some segs, Some cfg, Some od =>
-          let ub := used_bins cfg bins in
-          VL (map (fun is =>
-                let O := oracles_at od (fst is) in
-                let k := length (seg_bins ub (snd is)) in
-                if ci_shape_ok O cfg k
-                then VL [VZ (Z.of_nat k); vRow (seg_row O cfg ub (snd is))]
+      | Some bins, Some segs, Some cfg, Some ods =>
+          let Os := fun i => nth i ods dummy_oracles in
+          let sel := segmetrics_bins cfg bins segs in
+          VL (map (fun isr =>
+                let i := fst (fst isr) in
+                let sb := nth i sel [] in
+                if ci_shape_ok (Os i) cfg (length sb)
+                then VL [VZ (Z.of_nat (length sb)); VL (map (fun ib => VZ (Z.of_nat (fst ib))) sb);
+                         vRow (snd (snd isr))]
                 else VErr "bootstrap oracle shape")
-              (combine (seq 0 (length segs)) segs))
+              (combine (combine (seq 0 (length segs)) segs) (do_segmetrics Os cfg bins segs)))
       | _, _, _, _ => bad_input
+      end
+  | _ => bad_input
+  end.
+
+(* the bins of every segment only (first pass of the harness: it needs k to draw the
+   bootstrap indices the way the code does) *)
+Definition e_c17_segbins (v : val) : val :=
+  match v with
+  | VL [b; s; c] =>
+      match getList getBin b, getList getSeg s, getConfig c with
+      | Some bins, Some segs, Some cfg =>
+          VL (map (fun sb => VL (map (fun ib => VZ (Z.of_nat (fst ib))) sb))
+                  (segmetrics_bins cfg bins segs))
+      | _, _, _ => bad_input
       end
   | _ => bad_input
   end.
@@ -146,3 +159,9 @@ Definition e_c17_bintest (v : val) : val :=
       end
   | _ => bad_input
   end.
+
+(* generated constants the harness needs to reproduce the code's own draws:
+   [bootstrap seed; smallest k that is resampled; MAD scale; low-coverage cut-off; off-target names] *)
+Definition e_c17_consts (_ : val) : val :=
+  VL [VZ Gen.SegmetricsDefaults.ci_seed; VZ Gen.SegmetricsDefaults.ci_min_k;
+      VQ Gen.DescDefaults.MAD_SCALE; VQ min_cvg; VL (map VS Gen.Params.ANTITARGET_ALIASES)].
